@@ -1,1 +1,227 @@
-/-! C29 — property theorems (stub: nothing proved yet). -/
+import B6.Model.Osm
+import B6.Lemmas.Osm
+/-!
+C29 — OSM data maps to features by fixed rules.
+
+About the model `B6/Model/Osm.lean` of `ingest/osm.go` + `ingest/features.go` (`ingest es` = every feature
+the OSM feature source emits for the elements `es`, in order). The model mirrors the code after
+`fixes/C29-relation-member-area-id.patch`.
+
+`osm_rules` is the element-by-element statement of the property; `member_id_rule` is the clause the
+unrepaired code broke (`member_id_before_fix_counterexample`); `key_mapping` is the searchable-key table.
+`path_geometry_partial` / `way_point_key_counterexample` belong to the finding `way-with-point-key`
+(an OSM tag keyed `point` on an open way collides with b6's geometry tag).
+-/
+namespace B6.Props.C29
+open B6.Model.Pbf (Element Tag Member MType Fail)
+open B6.Model.Osm B6.Lemmas.Osm
+
+/-- Searchable tag keys: the 17 `hashKeys` get a `#` prefix, the 3 `atKeys` an `@` prefix, every other
+key is kept as it is. -/
+theorem key_mapping (k : String) :
+    keyForOSMKey k = if k ∈ hashKeys then "#" ++ k else if k ∈ atKeys then "@" ++ k else k :=
+  keyForOSMKey_spec k
+
+/-- The rules, element by element, for every input and every pair of ID sets:
+* a node gives exactly one feature, the point `pointID id`, whose `point` tag is the node's location and
+  which carries every OSM tag (key mapped) except one whose mapped key is `point`;
+* an open way gives exactly one feature, the path `pathID id` whose `path` tag lists its nodes' points in
+  order, carrying every OSM tag (key mapped) except one whose mapped key is `path`;
+* a closed way gives exactly that path with *no* other tag, and the area `wayAreaID id` with the way's tags
+  (keys mapped) and the single polygon `[pathID id]`;
+* a multipolygon relation gives nothing when one of its way members is not a closed way of the input, and
+  otherwise exactly the area `relAreaID id` with the relation's tags whose polygons are non-empty and,
+  concatenated, are the relation's way members in order;
+* any other relation gives exactly the relation `relID id` with its tags and one member per OSM member,
+  same order and role, with the ID `memberID` chooses. -/
+theorem osm_rules (s : Sets) :
+    (∀ id lat lon tags, ∃ f, featuresOf s (.node id lat lon tags) = [f] ∧ f.id = pointID id ∧
+        f.tags.find? (fun t => t.key = "point") = some ⟨"point", .point lat lon⟩ ∧
+        ∀ t ∈ tags, keyForOSMKey t.key ≠ "point" → ⟨keyForOSMKey t.key, .str t.value⟩ ∈ f.tags) ∧
+    (∀ id nodes tags, wayClosed? nodes = some false → ∃ f, featuresOf s (.way id nodes tags) = [f] ∧ f.id = pathID id ∧
+        f.tags.find? (fun t => t.key = "path") = some ⟨"path", .ids (nodes.map pointID)⟩ ∧
+        ∀ t ∈ tags, keyForOSMKey t.key ≠ "path" → ⟨keyForOSMKey t.key, .str t.value⟩ ∈ f.tags) ∧
+    (∀ id nodes tags, wayClosed? nodes = some true → featuresOf s (.way id nodes tags) =
+        [.generic (pathID id) [⟨"path", .ids (nodes.map pointID)⟩], .area (wayAreaID id) (mapTags tags) [[pathID id]]]) ∧
+    (∀ id members tags, isRelationArea tags = true →
+        ((∃ m ∈ members, m.type = .way ∧ s.areaWays.contains (u m.id) = false) → featuresOf s (.relation id members tags) = []) ∧
+        ((∀ m ∈ members, m.type = .way → s.areaWays.contains (u m.id) = true) →
+          ∃ polys : List (List Int64), featuresOf s (.relation id members tags) =
+              [.area (relAreaID id) (mapTags tags) (polys.map (·.map pathID))] ∧
+            polys.flatten = wayIds members ∧ ∀ p ∈ polys, p ≠ [])) ∧
+    (∀ id members tags, isRelationArea tags = false → featuresOf s (.relation id members tags) =
+        [.relation (relID id) (mapTags tags) (members.map fun m => (memberID s m, m.role))]) := by
+  refine ⟨?_, ?_, ?_, ?_, ?_⟩
+  · intro id lat lon tags
+    refine ⟨_, rfl, rfl, modifyOrAdd_find _ _ _, ?_⟩
+    intro t ht hk
+    exact modifyOrAdd_keeps _ _ _ _ (List.mem_map.mpr ⟨t, ht, rfl⟩) hk
+  · intro id nodes tags hc
+    refine ⟨.generic (pathID id) (modifyOrAdd "path" (.ids (nodes.map pointID)) (mapTags tags)), ?_, rfl,
+      modifyOrAdd_find _ _ _, ?_⟩
+    · simp [featuresOf, hc]
+    · intro t ht hk
+      exact modifyOrAdd_keeps _ _ _ _ (List.mem_map.mpr ⟨t, ht, rfl⟩) hk
+  · intro id nodes tags hc
+    simp [featuresOf, hc, modifyOrAdd]
+  · intro id members tags ha
+    constructor
+    · intro hex
+      have := (assemble_none (aw := s.areaWays) (P := []) (L := []) (ms := members)).mpr hex
+      simp [featuresOf, ha, this]
+    · intro hall
+      cases hasm : assemble s.areaWays [] [] members with
+      | none =>
+        obtain ⟨m, hm, hw, hc⟩ := assemble_none.mp hasm
+        rw [hall m hm hw] at hc
+        cases hc
+      | some polys =>
+        obtain ⟨h1, h2, _⟩ := assemble_some hasm
+        refine ⟨polys, by simp [featuresOf, ha, hasm], by simpa using h1, h2 (by simp)⟩
+  · intro id members tags ha
+    simp [featuresOf, ha]
+
+/-- The feature source is defined (does not panic) exactly when no way is without nodes, and then its
+output is the concatenation, in input order, of what the rules give for each element with the ID sets of
+the whole input. -/
+theorem ingest_spec (es : List Element) :
+    ((∃ fs, ingest es = .ok fs) ↔ ∀ id nodes tags, Element.way id nodes tags ∈ es → nodes ≠ []) ∧
+    ∀ s, collect es = .ok s → ingest es = .ok (es.flatMap (featuresOf s)) := by
+  constructor
+  · rw [← collect_ok_iff]
+    unfold ingest
+    cases collect es with
+    | error e => simp [Except.map]
+    | ok s => simp [Except.map]
+  · intro s hs
+    simp [ingest, hs, Except.map]
+
+/-- **Member IDs are chosen by the member.** With the ID sets of the input: a node member points at the
+node's point; a way member at the *area* of that way exactly when the input has a closed way with the
+member's ID, otherwise at its path; a relation member at the *area* exactly when the input has a
+multipolygon relation with the member's ID, otherwise at the relation. -/
+theorem member_id_rule (es : List Element) (s : Sets) (hs : collect es = .ok s) (m : Member) :
+    (m.type = .node → memberID s m = pointID m.id) ∧
+    (m.type = .way →
+      ((∃ nodes tags, Element.way m.id nodes tags ∈ es ∧ wayClosed? nodes = some true) → memberID s m = wayAreaID m.id) ∧
+      ((¬ ∃ nodes tags, Element.way m.id nodes tags ∈ es ∧ wayClosed? nodes = some true) → memberID s m = pathID m.id)) ∧
+    (m.type = .relation →
+      ((∃ members tags, Element.relation m.id members tags ∈ es ∧ isRelationArea tags = true) → memberID s m = relAreaID m.id) ∧
+      ((¬ ∃ members tags, Element.relation m.id members tags ∈ es ∧ isRelationArea tags = true) → memberID s m = relID m.id)) := by
+  unfold memberID
+  refine ⟨fun hm => by simp [hm], fun hm => ?_, fun hm => ?_⟩
+  · have := collect_areaWays hs (u m.id)
+    constructor
+    · rintro ⟨nodes, tags, h1, h2⟩
+      have hin : u m.id ∈ s.areaWays := this.mpr ⟨m.id, nodes, tags, h1, h2, rfl⟩
+      simp [hm, hin]
+    · intro h
+      have hnin : ¬ u m.id ∈ s.areaWays := by
+        intro hin
+        obtain ⟨i, nodes, tags, h1, h2, h3⟩ := this.mp hin
+        have := u_inj h3
+        subst this
+        exact h ⟨nodes, tags, h1, h2⟩
+      simp [hm, hnin]
+  · have := collect_areaRels hs (u m.id)
+    constructor
+    · rintro ⟨ms, tags, h1, h2⟩
+      have hin : u m.id ∈ s.areaRels := this.mpr ⟨m.id, ms, tags, h1, h2, rfl⟩
+      simp [hm, hin]
+    · intro h
+      have hnin : ¬ u m.id ∈ s.areaRels := by
+        intro hin
+        obtain ⟨i, ms, tags, h1, h2, h3⟩ := this.mp hin
+        have := u_inj h3
+        subst this
+        exact h ⟨ms, tags, h1, h2⟩
+      simp [hm, hnin]
+
+/-- …and the feature a way member points at is really emitted: if the input has a way with the member's
+ID, the output has a feature with the member ID — the area when that way is closed. -/
+theorem way_member_target_emitted (es : List Element) (fs : List Feature) (h : ingest es = .ok fs)
+    (s : Sets) (hs : collect es = .ok s) (m : Member) (hm : m.type = .way)
+    (nodes : List Int64) (tags : List Tag) (hw : Element.way m.id nodes tags ∈ es) :
+    ∃ f ∈ fs, f.id = memberID s m ∧ (wayClosed? nodes = some true → f.id = wayAreaID m.id) := by
+  have hfs := (ingest_spec es).2 s hs
+  rw [h] at hfs
+  cases hfs
+  have hne : nodes ≠ [] := ((ingest_spec es).1.mp ⟨_, h⟩) m.id nodes tags hw
+  have hmid := (member_id_rule es s hs m).2.1 hm
+  cases hc : wayClosed? nodes with
+  | none => cases nodes <;> simp_all [wayClosed?]
+  | some c =>
+    cases c with
+    | true =>
+      have hmid := hmid.1 ⟨nodes, tags, hw, hc⟩
+      refine ⟨.area (wayAreaID m.id) (mapTags tags) [[pathID m.id]], ?_, hmid.symm, fun _ => rfl⟩
+      exact List.mem_flatMap.mpr ⟨_, hw, by simp [featuresOf, hc]⟩
+    | false =>
+      -- an open way: the member ID is the area only if *another* way with this ID is closed; both exist
+      by_cases hex : ∃ nodes tags, Element.way m.id nodes tags ∈ es ∧ wayClosed? nodes = some true
+      · obtain ⟨n2, t2, hw2, hc2⟩ := hex
+        have hmid := hmid.1 ⟨n2, t2, hw2, hc2⟩
+        refine ⟨.area (wayAreaID m.id) (mapTags t2) [[pathID m.id]], ?_, hmid.symm, fun h => by cases h⟩
+        exact List.mem_flatMap.mpr ⟨_, hw2, by simp [featuresOf, hc2]⟩
+      · have hmid := hmid.2 hex
+        refine ⟨.generic (pathID m.id) (modifyOrAdd "path" (.ids (nodes.map pointID)) (mapTags tags)), ?_, hmid.symm,
+          fun h => by cases h⟩
+        exact List.mem_flatMap.mpr ⟨_, hw, by simp [featuresOf, hc]⟩
+
+/-- What the code did before the fix — it asked the ID sets about the *relation's* ID: nodes 1,2,3, the
+closed way 10 = [1,2,3,1], the plain relation 20 with member way 10. The member should be the area of way
+10 (`member_id_rule`); the unrepaired choice is its path. -/
+theorem member_id_before_fix_counterexample :
+    ∃ (es : List Element) (s : Sets) (rid : Int64) (m : Member),
+      collect es = .ok s ∧ (∃ ms tags, Element.relation rid ms tags ∈ es ∧ m ∈ ms ∧ isRelationArea tags = false) ∧
+      (∃ nodes tags, Element.way m.id nodes tags ∈ es ∧ wayClosed? nodes = some true) ∧
+      memberID s m = wayAreaID m.id ∧ memberIDBeforeFix s rid m = pathID m.id ∧ pathID m.id ≠ wayAreaID m.id :=
+  ⟨[.node 1 0 0 [], .node 2 0 10 [], .node 3 10 10 [], .way 10 [1, 2, 3, 1] [⟨"building", "yes"⟩],
+     .relation 20 [⟨.way, 10, "stop"⟩] [⟨"type", "route"⟩]],
+   { areaWays := [u 10], areaRels := [] }, 20, ⟨.way, 10, "stop"⟩,
+   by rfl, ⟨[⟨.way, 10, "stop"⟩], [⟨"type", "route"⟩], by decide, by decide, by decide⟩,
+   ⟨[1, 2, 3, 1], [⟨"building", "yes"⟩], by decide, by decide⟩, by decide, by decide, by decide⟩
+
+/-! ### finding `way-with-point-key` -/
+
+/-- For an open way none of whose tags has the mapped key `point`, the path feature is a path as long as
+the way (`Tags.GeometryLen` = number of nodes), so `ValidatePath` sees all its points. -/
+theorem path_geometry_partial (s : Sets) (id : Int64) (nodes : List Int64) (tags : List Tag)
+    (hc : wayClosed? nodes = some false) (hk : pointKeyWay (.way id nodes tags) = false) :
+    ∃ f, featuresOf s (.way id nodes tags) = [f] ∧ geometryLen f.tags = nodes.length := by
+  refine ⟨.generic (pathID id) (modifyOrAdd "path" (.ids (nodes.map pointID)) (mapTags tags)), by simp [featuresOf, hc], ?_⟩
+  have hany : (mapTags tags).any (fun t => t.key = "point") = false := by
+    simp only [pointKeyWay, hc, beq_self_eq_true, Bool.true_and] at hk
+    simpa [mapTags, List.any_map, Function.comp_def] using hk
+  simp only [Feature.tags, geometryLen, modifyOrAdd_any_ne "path" "point" _ _ (by decide), hany,
+    modifyOrAdd_find]
+  simp
+
+/-- The statement without the hypothesis fails: the open way 18 = [2, 22, 20] tagged `point=` gets a path
+feature whose geometry length is 1, not 3 (the world builder then drops it: fewer than 2 points). -/
+theorem way_point_key_counterexample :
+    ∃ (s : Sets) (id : Int64) (nodes : List Int64) (tags : List Tag) (f : Feature),
+      wayClosed? nodes = some false ∧ pointKeyWay (.way id nodes tags) = true ∧
+      featuresOf s (.way id nodes tags) = [f] ∧ geometryLen f.tags = 1 ∧ nodes.length = 3 :=
+  ⟨{}, 18, [2, 22, 20], [⟨"point", ""⟩], _, by decide, by decide, rfl, by decide, rfl⟩
+
+/-! Non-vacuity: an input with every kind of element; it is defined, and the relation's members are the
+point, the area of the closed way, the path of the open way and the area of the multipolygon. -/
+
+def sample : List Element :=
+  [ .node 1 0 0 [⟨"amenity", "cafe"⟩], .node 2 0 10 [], .node 3 10 10 [],
+    .way 10 [1, 2, 3, 1] [⟨"building", "yes"⟩], .way 11 [1, 3] [⟨"highway", "path"⟩],
+    .relation 30 [⟨.way, 10, "outer"⟩] [⟨"type", "multipolygon"⟩],
+    .relation 20 [⟨.node, 1, ""⟩, ⟨.way, 10, "stop"⟩, ⟨.way, 11, ""⟩, ⟨.relation, 30, ""⟩] [⟨"type", "route"⟩] ]
+
+example : (ingest sample).toOption.map (·.length) = some 8 := by decide
+example : ∃ s, collect sample = .ok s ∧
+    (sample.flatMap (featuresOf s)).getLast? = some (.relation (relID 20) [⟨"type", .str "route"⟩]
+      [(pointID 1, ""), (wayAreaID 10, "stop"), (pathID 11, ""), (relAreaID 30, "")]) :=
+  ⟨{ areaWays := [u 10], areaRels := [u 30] }, by rfl, by decide⟩
+example : assemble [u 1, u 2, u 3] [] [] [⟨.way, 1, "outer"⟩, ⟨.way, 2, "inner"⟩, ⟨.node, 9, ""⟩, ⟨.way, 3, ""⟩] =
+    some [[1, 2], [3]] := by decide
+example : keyForOSMKey "amenity" = "#amenity" ∧ keyForOSMKey "wikidata" = "@wikidata" ∧ keyForOSMKey "name" = "name" := by
+  decide
+
+end B6.Props.C29
